@@ -9,6 +9,7 @@ import (
 	"fmt"
 	"os"
 	"path/filepath"
+	"sort"
 	"strings"
 	"testing"
 	"time"
@@ -449,5 +450,125 @@ func c14Check(env *h.Env, c *c14Case) error {
 }
 
 func TestC14(t *testing.T) {
-	h.Run(t, "C14", genC14, c14Check)
+	r := h.NewRunner("C14")
+	defer r.Finish(t)
+	h.RunWith(t, r, "", genC14, c14Check)
+	if t.Failed() {
+		return
+	}
+	t.Run("unpriv", func(t *testing.T) {
+		h.ScaleChecks(1, 15, func() { h.RunWith(t, r, "unpriv", genC14Unpriv, c14UnprivCheck) })
+	})
+}
+
+// ---------------------------------------------------------------------------
+// sub-run "unpriv": Copy runs as uid 1000 (chrooted sub-process) into a destination
+// directory that belongs to root (mode 0755, or sticky 1777 with root's entries): the
+// process may not unlink what is there. Where a source file's name is taken by a symlink
+// to a file outside the destination root that uid 1000 may write, the copy has to
+// fail; whatever it does, nothing outside the destination root changes.
+
+type c14UnprivCase struct {
+	Names   []string `json:"names"`  // source files (sizes differ)
+	Links   []string `json:"links"`  // names that are symlinks in the destination
+	Target  string   `json:"target"` // where they point
+	Sticky  bool     `json:"sticky"` // destination is a sticky world-writable directory
+	DstArg  string   `json:"dstarg"`
+	Replace bool     `json:"replace"`
+}
+
+func genC14Unpriv(t *rapid.T) *c14UnprivCase {
+	c := &c14UnprivCase{}
+	c.Names = rapid.SliceOfNDistinct(rapid.SampledFrom([]string{"a", "b", "c", "d", "ab"}), 1, 4, func(s string) string { return s }).Draw(t, "names")
+	sort.Strings(c.Names)
+	c.Links = []string{c.Names[rapid.IntRange(0, len(c.Names)-1).Draw(t, "link")]}
+	if rapid.Bool().Draw(t, "firstlink") {
+		c.Links = []string{c.Names[0]}
+	}
+	c.Target = rapid.SampledFrom([]string{"/outside/w", "../outside/w", "/outside/dir/w"}).Draw(t, "target")
+	c.Sticky = rapid.IntRange(0, 3).Draw(t, "sticky") == 0
+	c.DstArg = rapid.SampledFrom([]string{"/", ".", "sub"}).Draw(t, "dstarg")
+	c.Replace = rapid.Bool().Draw(t, "replace")
+	return c
+}
+
+func c14UnprivCheck(env *h.Env, c *c14UnprivCase) error {
+	jail := filepath.Join(env.Scratch, "jail")
+	for _, d := range []string{"outside/dir", "src", "dst/sub"} {
+		if err := os.MkdirAll(filepath.Join(jail, d), 0o755); err != nil {
+			return h.Infra(err)
+		}
+	}
+	// outside files the process may write, and one it may not
+	for _, p := range []string{"outside/w", "outside/dir/w"} {
+		if err := os.WriteFile(filepath.Join(jail, p), []byte("OUTSIDE writable sentinel "+p), 0o666); err != nil {
+			return h.Infra(err)
+		}
+		os.Chown(filepath.Join(jail, p), 1000, 1000)
+	}
+	for i, n := range c.Names {
+		if err := os.WriteFile(filepath.Join(jail, "src", n), h.Content(uint32(300+i), 30+i), 0o644); err != nil {
+			return h.Infra(err)
+		}
+		os.Chown(filepath.Join(jail, "src", n), 1000, 1000)
+	}
+	os.Chown(filepath.Join(jail, "src"), 1000, 1000)
+	for _, d := range []string{"dst", "dst/sub"} {
+		for _, l := range c.Links {
+			if err := os.Symlink(c.Target, filepath.Join(jail, d, l)); err != nil {
+				return h.Infra(err)
+			}
+		}
+		mode := os.FileMode(0o755)
+		if c.Sticky {
+			mode = 0o777 | os.ModeSticky
+		}
+		if err := os.Chmod(filepath.Join(jail, d), mode); err != nil {
+			return h.Infra(err)
+		}
+	}
+	os.Chmod(jail, 0o755)
+	os.Chmod(env.Scratch, 0o755)
+	before, err := h.Snapshot(jail)
+	if err != nil {
+		return h.Infra(err)
+	}
+	var res c14JailResult
+	if err := runJailed(jail, "copy", 1000, c14JailArg{SrcArg: "/", DstArg: c.DstArg, Opts: h.CpOpts{AlwaysReplace: c.Replace}}, &res); err != nil {
+		var crash *helperCrash
+		if errors.As(err, &crash) {
+			return fmt.Errorf("unprivileged Copy: the copying %v", crash)
+		}
+		return h.Infra(err)
+	}
+	after, err := h.Snapshot(jail)
+	if err != nil {
+		return h.Infra(err)
+	}
+	env.Class("unprivileged-copy-into-foreign-directory")
+	env.NonTrivial()
+	if res.Err == "" {
+		env.Class("copy-succeeded")
+	} else {
+		env.Class("copy-failed")
+	}
+	what := fmt.Sprintf("Copy as uid 1000 (files %q, destination %q owned by root%s, symlinks %q -> %q) -> err=%q", c.Names, c.DstArg, map[bool]string{true: ", sticky", false: ""}[c.Sticky], c.Links, c.Target, res.Err)
+	for p, b := range before {
+		if p == "dst" || strings.HasPrefix(p, "dst/") {
+			continue
+		}
+		a := after[p]
+		if a == nil {
+			return fmt.Errorf("%s: %q outside the destination root was removed", what, p)
+		}
+		if !h.SameEntry(a, b, true) {
+			return fmt.Errorf("%s: %q outside the destination root was modified: %+v -> %+v", what, p, *b, *a)
+		}
+	}
+	for p, a := range after {
+		if p != "dst" && !strings.HasPrefix(p, "dst/") && before[p] == nil {
+			return fmt.Errorf("%s: %q (%s) was created outside the destination root", what, p, a.Kind)
+		}
+	}
+	return nil
 }
